@@ -698,4 +698,103 @@ theorem eqConcProd_pos_none (ctx : Ctx ℝ) (c : String → ℝ) (k : String) (e
   simp only [eqConcProd, get_some hk.1, ok_bind, pow_real_int hk.2, List.map_cons, List.prod_cons]
   exact ih
 
+/-! ### closed formulas of the remaining classes -/
+
+theorem sin_real (x : ℝ) : PyNum.sin x = .ok (Real.sin x) := rfl
+theorem log10_real {x : ℝ} (h : 0 < x) : PyNum.log10 x = .ok (Real.log x / Real.log 10) := by
+  show (if x ≤ 0 then Except.error Err.valueError else Except.ok (Real.log x / Real.log 10)) = _
+  rw [if_neg (not_le.mpr h)]
+
+/-- `EyringHS([dH, dS, c0])`: the coded `kB/h·T·exp(−(dH − T·dS)/(R·T))·c0^(1−n)` is the documented
+`(kB·T/h)·exp(dS/R)·exp(−dH/(R·T))·c0^(1−n)` -/
+theorem eval_eyringHS_node (ctx : Ctx ℝ) (dH dS c0 T R kB h : ℝ) (reac : List (String × ℤ))
+    (hT : ctx.vars "temperature" = some T) (hR : ctx.vars "molar_gas_constant" = some R)
+    (hkB : ctx.vars "Boltzmann_constant" = some kB) (hh : ctx.vars "Planck_constant" = some h)
+    (hT0 : T ≠ 0) (hR0 : R ≠ 0) (hh0 : h ≠ 0) (hc0 : 0 < c0) (hr : ctx.rxn = .some reac) :
+    eval ctx (.node .eyringHS false [.num dH, .num dS, .num c0] none)
+      = .ok (kB * T / h * Real.exp (dS / R) * Real.exp (-dH / (R * T)) * c0 ^ (1 - order reac)) := by
+  have haa := allArgs_no_override ctx .eyringHS [dH, dS, c0] none (Or.inl rfl) (by simp)
+  simp only [List.length_cons, List.length_nil, List.map_cons, List.map_nil] at haa
+  have hRT : R * T ≠ 0 := mul_ne_zero hR0 hT0
+  simp only [eval, evalList, call, List.map_cons, List.map_nil, noneArg_ok, List.length_cons, List.length_nil, haa, ok_bind,
+    get_some hT, get_some hR, get_some hkB, get_some hh, pyDiv_real hRT, pyDiv_real hh0, exp_real, pure_eq_ok, rxnOf, hr,
+    pow_real_int hc0]
+  congr 2
+  have he : -(dH - T * dS) / (R * T) = dS / R + -dH / (R * T) := by field_simp; ring
+  rw [he, Real.exp_add]
+  ring
+
+theorem eval_gibbs_node (ctx : Ctx ℝ) (dHR dSR T : ℝ) (hT : ctx.vars "temperature" = some T) (hT0 : T ≠ 0) :
+    eval ctx (.node .gibbsEqConst false [.num dHR, .num dSR] none) = .ok (Real.exp (dSR - dHR / T)) := by
+  have haa := allArgs_no_override ctx .gibbsEqConst [dHR, dSR] none (Or.inl rfl) (by simp)
+  simp only [List.length_cons, List.length_nil, List.map_cons, List.map_nil] at haa
+  simp only [eval, evalList, call, List.map_cons, List.map_nil, noneArg_ok, List.length_cons, List.length_nil, haa, ok_bind,
+    get_some hT, pyDiv_real hT0, exp_real]
+
+theorem eval_rampedTemp_node (ctx : Ctx ℝ) (T0 dTdt t : ℝ) (ht : ctx.vars "time" = some t) :
+    eval ctx (.node .rampedTemp false [.num T0, .num dTdt] none) = .ok (T0 + dTdt * t) := by
+  have haa := allArgs_no_override ctx .rampedTemp [T0, dTdt] none (Or.inl rfl) (by simp)
+  simp only [List.length_cons, List.length_nil, List.map_cons, List.map_nil] at haa
+  simp only [eval, evalList, call, List.map_cons, List.map_nil, noneArg_ok, List.length_cons, List.length_nil, haa, ok_bind,
+    get_some ht, pure_eq_ok]
+
+theorem eval_sinTemp_node (ctx : Ctx ℝ) (Tb Ta w ph t : ℝ) (ht : ctx.vars "time" = some t) :
+    eval ctx (.node .sinTemp false [.num Tb, .num Ta, .num w, .num ph] none) = .ok (Tb + Ta * Real.sin (w * t + ph)) := by
+  have haa := allArgs_no_override ctx .sinTemp [Tb, Ta, w, ph] none (Or.inl rfl) (by simp)
+  simp only [List.length_cons, List.length_nil, List.map_cons, List.map_nil] at haa
+  simp only [eval, evalList, call, List.map_cons, List.map_nil, noneArg_ok, List.length_cons, List.length_nil, haa, ok_bind,
+    get_some ht, sin_real, pure_eq_ok]
+
+theorem eval_massActionEq_node (ctx : Ctx ℝ) (K : ℝ) :
+    eval ctx (.node .massActionEq false [.num K] none) = .ok K := by
+  have haa := allArgs_no_override ctx .massActionEq [K] none (Or.inl rfl) (by simp)
+  simp only [List.length_cons, List.length_nil, List.map_cons, List.map_nil] at haa
+  simp only [eval, evalList, call, List.map_cons, List.map_nil, noneArg_ok, List.length_cons, List.length_nil, haa, ok_bind,
+    pure_eq_ok]
+
+theorem eval_exp_node (ctx : Ctx ℝ) (v : Val ℝ) (a : ℝ) (hv : eval ctx v = .ok a) :
+    eval ctx (.node .exp false [v] none) = .ok (Real.exp a) := by
+  have haa := allArgs_no_override ctx .exp [a] none (Or.inl rfl) (by simp)
+  simp only [List.length_cons, List.length_nil, List.map_cons, List.map_nil] at haa
+  simp only [eval, evalList, call, childCtx, hv, List.map_cons, List.map_nil, noneArg_ok, List.length_cons, List.length_nil,
+    haa, ok_bind, exp_real]
+
+theorem eval_log10_node (ctx : Ctx ℝ) (v : Val ℝ) (a : ℝ) (hv : eval ctx v = .ok a) (ha : 0 < a) :
+    eval ctx (.node .log10 false [v] none) = .ok (Real.log a / Real.log 10) := by
+  have haa := allArgs_no_override ctx .log10 [a] none (Or.inl rfl) (by simp)
+  simp only [List.length_cons, List.length_nil, List.map_cons, List.map_nil] at haa
+  simp only [eval, evalList, call, childCtx, hv, List.map_cons, List.map_nil, noneArg_ok, List.length_cons, List.length_nil,
+    haa, ok_bind, log10_real ha]
+
+/-- the sum of `Radiolytic.__call__` -/
+theorem radSum_spec (ctx : Ctx ℝ) (d : String → ℝ) : ∀ (ks : List String) (gs : List ℝ) (acc : ℝ),
+    ks.length = gs.length → (∀ k ∈ ks, ctx.vars k = some (d k)) →
+    radSum ctx ks gs (some acc) = .ok (some (acc + (List.zipWith (fun k g => d k * g) ks gs).sum))
+  | [], [], acc, _, _ => by simp [radSum]
+  | [], _ :: _, _, h, _ => by simp at h
+  | _ :: _, [], _, h, _ => by simp at h
+  | k :: ks, g :: gs, acc, hl, hv => by
+      have ih := radSum_spec ctx d ks gs (acc + d k * g) (by simpa using hl) (fun k' hk' => hv k' (List.mem_cons_of_mem _ hk'))
+      simp only [radSum, get_some (hv k List.mem_cons_self), ok_bind, ih, List.zipWith_cons_cons, List.sum_cons, add_assoc]
+
+theorem eval_radiolytic_node (ctx : Ctx ℝ) (names : List String) (g0 : ℝ) (gs : List ℝ) (rho : ℝ) (d : String → ℝ)
+    (n0 : String) (hn : names.length = gs.length) (hrho : ctx.vars "density" = some rho)
+    (hd : ∀ k ∈ (n0 :: names).map (fun n => "doserate" ++ radSuffix n), ctx.vars k = some (d k)) :
+    eval ctx (.node (.radiolytic (n0 :: names)) false ((g0 :: gs).map Val.num) none)
+      = .ok (rho * (List.zipWith (fun k g => d k * g) ((n0 :: names).map (fun n => "doserate" ++ radSuffix n)) (g0 :: gs)).sum) := by
+  have hk : (Kind.radiolytic (n0 :: names)).nargs = some (((g0 :: gs).length : Nat) : Int) := by
+    simp [Kind.nargs, Kind.argNames, Kind.nargsCls, hn]
+  have haa := allArgs_no_override ctx (.radiolytic (n0 :: names)) (g0 :: gs) none (Or.inl hk) (by simp)
+  have hev : ∀ (c : Ctx ℝ) (l : List ℝ), (evalList c (l.map Val.num)).map (noneArg (.radiolytic (n0 :: names))) = l.map Except.ok := by
+    intro c l
+    induction l with
+    | nil => simp [evalList]
+    | cons a l ih => simp [evalList, eval, ih]
+  have hsum := radSum_spec ctx d (names.map (fun n => "doserate" ++ radSuffix n)) gs (d ("doserate" ++ radSuffix n0) * g0)
+    (by simpa using hn) (fun k hk' => hd k (List.mem_cons_of_mem _ hk'))
+  have h0 : ctx.vars ("doserate" ++ radSuffix n0) = some (d ("doserate" ++ radSuffix n0)) :=
+    hd _ (by simp)
+  simp only [eval, call, hev, List.length_map, haa, ok_bind, get_some hrho]
+  simp only [List.map_cons, radSum, get_some h0, ok_bind, hsum, pure_eq_ok, List.zipWith_cons_cons, List.sum_cons]
+
 end ChemModel.PyExpr
